@@ -501,4 +501,132 @@ theorem run_aux (ops : List (Bytes × Bytes × Nat)) (t : Tree) (l : List (Bytes
     exact ih _ _ h3 (by rw [h2, hl])
 
 
+/-! ### in-place update and replacement from inside a scan -/
+
+theorem map_unchanged (k v : Bytes) (l : List KV) (h : ∀ e ∈ l, e.1 ≠ k) :
+    l.map (fun e => if e.1 = k then (k, v) else e) = l := by
+  induction l with
+  | nil => rfl
+  | cons x xs ih =>
+    simp only [List.map_cons, if_neg (h x List.mem_cons_self)]
+    rw [ih (fun e he => h e (List.mem_cons_of_mem _ he))]
+
+/-- the replacement branch rewrites exactly the entry of the key (and nothing when the key is absent) -/
+theorem replace_toList_map (k v : Bytes) (t : Tree) (h : BST t) :
+    toList (replace k v t) = (toList t).map (fun e => if e.1 = k then (k, v) else e) := by
+  induction t with
+  | nil => rfl
+  | node l ck cv cr r ihl ihr =>
+    obtain ⟨hl, hr, hlk, hrk⟩ := bst_node h
+    simp only [replace]
+    cases hc : Bytes.cmp k ck with
+    | eq =>
+      have hk : k = ck := Bytes.cmp_eq_iff.mp hc
+      simp only [toList, List.map_append, List.map_cons]
+      rw [map_unchanged k v _ (fun e he => by rw [hk]; exact cmp_ne_of_lt (hlk e he)),
+        map_unchanged k v _ (fun e he => by rw [hk]; exact fun e2 => cmp_ne_of_lt (hrk e he) e2.symm)]
+      simp [hk]
+    | lt =>
+      simp only [toList, List.map_append, List.map_cons]
+      rw [ihl hl, map_unchanged k v (toList r)
+        (fun e he => fun e2 => cmp_ne_of_lt (Bytes.cmp_lt_trans hc (hrk e he)) e2.symm)]
+      have : ck ≠ k := fun e => cmp_ne_of_lt hc e.symm
+      simp [this]
+    | gt =>
+      have hgt := cmp_lt_of_gt hc
+      simp only [toList, List.map_append, List.map_cons]
+      rw [ihr hr, map_unchanged k v (toList l) (fun e he => cmp_ne_of_lt (Bytes.cmp_lt_trans (hlk e he) hgt))]
+      have : ck ≠ k := cmp_ne_of_lt hgt
+      simp [this]
+
+theorem sorted_map_keys (l : List KV) (g : KV → KV) (hg : ∀ e, (g e).1 = e.1) (h : Sorted l) : Sorted (l.map g) := by
+  unfold Sorted at *
+  rw [List.pairwise_map]
+  exact h.imp (fun hab => by unfold KLt at *; rw [hg, hg]; exact hab)
+
+theorem replace_bst (k v : Bytes) (t : Tree) (h : BST t) : BST (replace k v t) := by
+  unfold BST
+  rw [replace_toList_map k v t h]
+  exact sorted_map_keys _ _ (by intro e; split <;> simp_all) h
+
+theorem reput_spec (k v : Bytes) (t : Tree) (h : BST t) :
+    (reput k v t).1 = (specGet k (toList t)).map (fun _ => v) ∧
+    toList (reput k v t).2 = specStep (toList t) (.reput k v) ∧ BST (reput k v t).2 := by
+  have hget := get_eq k t h
+  unfold reput
+  cases hg : get k t with
+  | some old =>
+    simp only [specStep]
+    rw [← hget, hg]
+    refine ⟨rfl, ?_, replace_bst k v t h⟩
+    simp only [Option.isSome_some, if_true]
+    exact replace_toList k v t h old hg
+  | none =>
+    simp only [specStep]
+    rw [← hget, hg]
+    exact ⟨rfl, by simp, h⟩
+
+theorem fold_replace (v : Bytes) (ks : List Bytes) (t : Tree) (h : BST t) :
+    BST (ks.foldl (fun t k => replace k v t) t) ∧
+    toList (ks.foldl (fun t k => replace k v t) t) = (toList t).map (fun e => if e.1 ∈ ks then (e.1, v) else e) := by
+  induction ks generalizing t with
+  | nil => simp [h]
+  | cons k ks ih =>
+    simp only [List.foldl_cons]
+    obtain ⟨a, b⟩ := ih (replace k v t) (replace_bst k v t h)
+    refine ⟨a, ?_⟩
+    rw [b, replace_toList_map k v t h, List.map_map]
+    apply List.map_congr_left
+    intro e _
+    simp only [Function.comp_def, List.mem_cons]
+    by_cases hk : e.1 = k
+    · simp [hk]
+    · simp [hk]
+
+/-- replacing every yielded key from inside the scan: the scan still yields exactly the entries with the prefix
+(of the state before), and afterwards exactly those entries carry the new value -/
+theorem ascendPut_spec (p v : Bytes) (t : Tree) (h : BST t) :
+    (ascendPut p v t).1 = (toList t).filter (fun e => Bytes.hasPrefix e.1 p) ∧
+    toList (ascendPut p v t).2 = specStep (toList t) (.ascPut p v) ∧ BST (ascendPut p v t).2 := by
+  have hasc := ascendPrefix_eq t h p
+  unfold ascendPut
+  simp only []
+  have hfold : (ascendPrefix t p).foldl (fun t e => replace e.1 v t) t =
+      ((ascendPrefix t p).map Prod.fst).foldl (fun t k => replace k v t) t := by
+    rw [List.foldl_map]
+  rw [hfold]
+  obtain ⟨a, b⟩ := fold_replace v ((ascendPrefix t p).map Prod.fst) t h
+  refine ⟨hasc, ?_, a⟩
+  rw [b]
+  simp only [specStep]
+  apply List.map_congr_left
+  intro e he
+  have : e.1 ∈ (ascendPrefix t p).map Prod.fst ↔ Bytes.hasPrefix e.1 p = true := by
+    rw [hasc]
+    simp only [List.mem_map, List.mem_filter]
+    constructor
+    · rintro ⟨e', ⟨_, hp'⟩, he'⟩; rw [← he']; exact hp'
+    · intro hp'; exact ⟨e, ⟨he, hp'⟩, rfl⟩
+  by_cases hp' : Bytes.hasPrefix e.1 p = true
+  · rw [if_pos (this.mpr hp'), if_pos hp']
+  · rw [if_neg (fun hh => hp' (this.mp hh)), if_neg hp']
+
+theorem step_spec (t : Tree) (o : Op) (h : BST t) :
+    BST (step t o) ∧ toList (step t o) = specStep (toList t) o := by
+  cases o with
+  | put k v rank => obtain ⟨_, b, c⟩ := put_spec k v rank t h; exact ⟨c, b⟩
+  | reput k v => obtain ⟨_, b, c⟩ := reput_spec k v t h; exact ⟨c, b⟩
+  | ascPut p v => obtain ⟨_, b, c⟩ := ascendPut_spec p v t h; exact ⟨c, b⟩
+
+theorem runOps_spec (ops : List Op) : BST (runOps ops) ∧ toList (runOps ops) = specRunOps ops := by
+  have key : ∀ (t : Tree) (l : List KV), BST t → toList t = l →
+      BST (ops.foldl step t) ∧ toList (ops.foldl step t) = ops.foldl specStep l := by
+    induction ops with
+    | nil => intro t l a b; exact ⟨a, b⟩
+    | cons o ops ih =>
+      intro t l a b
+      obtain ⟨c, d⟩ := step_spec t o a
+      exact ih _ _ c (by rw [d, b])
+  exact key nil [] (by simp [BST, Sorted, toList]) rfl
+
 end Rxn.ZipTree
